@@ -129,7 +129,13 @@ func checkC12(r *Run) propMeta {
 	// ---- R6 clone
 	checkPropertiesClone(r, gp)
 	checkKindsNoParamAlias(r, gp)
+	checkKindsInPlace(r, gp)
+	checkKindsEquality(r, gp)
+	checkEntityNilProperties(r, gp)
 	r.Floor("C12-R1-effect-summary", 5)
+	r.Floor("C12-R7-kinds-no-in-place-edit", 5)
+	r.Floor("C12-R8-kinds-equality", 3)
+	r.Floor("C12-R9-entity-nil-properties", 3)
 	r.Floor("C12-R3-abstract-state", 2)
 	r.Floor("C12-R5-delta-readers", 6)
 	return meta
